@@ -212,6 +212,56 @@ def h_cv(ctx, n):
     ctx.prove("C07.cv.adjusted_variance_is_raw_minus_explained", EQ_RATIONAL((var_raw - var_adj) * sxx, sxy * sxy), info={"n": n}, replay=rp, timeout_ms=60000)
 
 
+def h_cv_comp(ctx, n):
+    """one control, compositional (fast in both directions): (a) the covariance entries the library computes are the biased sample
+    covariances; (b) over an arbitrary covariance matrix sigma (fresh symbols) the adjusted samples are Y_j - (sigma_xy/sigma_xx)(X_j - p):
+    adjusted mean and adjusted variance follow as polynomial identities of low degree."""
+    df = ctx.real("df", 0)
+    notional = ctx.real("notional")
+    kx, px, nx = ctx.real("kx"), ctx.real("price_x"), ctx.real("notional_x")
+    cvprod = PROD.Product(payoff_underlying=UND.Spot(), payoff=PAY.Forward(strike=kx), maturity=1.0, notional=nx)
+    cv = PROD.ControlVariates(products=[cvprod], prices=[px])
+    spots = [ctx.real(f"s{j}") for j in range(n)]
+    k0 = ctx.real("k0")
+    ctx.fork_max = True
+    eng, prod, proc = make(ctx, n, [k0], notional, df, cv=cv, concrete=spots)
+    rp = (replay_cv, lambda m: {"n": max(n, 4), "nx": 2.5})
+    info = {"n": n, "controls": 1}
+    Y = [df * notional * shims._smax_fork(s - k0, 0.0) for s in spots]
+    X = [df * nx * (s - kx) for s in spots]
+    mean = lambda v: sum(v) / n
+    cov = lambda u, v: sum((a - mean(u)) * (b - mean(v)) for a, b in zip(u, v)) / n
+    rows = [X, Y]
+    sig = {}
+    npx = PROD.np
+    orig_cov = npx.cov
+
+    def cov_hook(m, y=None, rowvar=True, bias=False, ddof=None, **kw):
+        C = orig_cov(m, y=y, rowvar=rowvar, bias=bias, ddof=ddof, **kw)
+        ok = np.shape(C) == (2, 2)
+        ctx.prove("C07.cv.covariances_are_biased_sample_covariances", ok and AND(*[EQ(C[i][j], cov(rows[i], rows[j])) for i in range(2) for j in range(2)]), info=info, replay=rp)
+        S = np.empty((2, 2), dtype=object)
+        for i in range(2):
+            for j in range(i, 2):
+                S[i, j] = S[j, i] = sig.setdefault((i, j), ctx.real(f"sigma{i}{j}"))
+        ctx.assume(S[0, 0] > Fraction(1, 10**6))
+        return S
+
+    npx.cov = cov_hook
+    try:
+        stats = eng.price(prod)
+    finally:
+        del npx.cov
+    sxx, sxy = sig[(0, 0)], sig[(0, 1)]
+    my, mx = mean(Y), mean(X)
+    adj = stats.price()
+    ctx.prove("C07.cv.raw_price_unchanged", EQ(stats.price(no_control_variates=True), my), info=info, replay=rp)
+    ctx.prove("C07.cv.adjusted_price_is_mean_of_Y_minus_bstar_X_minus_price", EQ_RATIONAL((adj - my) * sxx, -sxy * (mx - px)), info=info, replay=rp)
+    ctx.prove("C07.cv.equals_raw_when_control_mean_equals_its_price", IMPLIES(AND(EQ((adj - my) * sxx, -sxy * (mx - px)), EQ(mx, px)), EQ(adj, my)), info=info, replay=rp)
+    st = stats._payoff_statistics_with_cv.stats
+    ctx.prove("C07.cv.adjusted_samples_are_Y_minus_bstar_X_minus_price", AND(*[EQ_RATIONAL((st[j][0] - Y[j]) * sxx, -sxy * (X[j] - px)) for j in range(n)]), info=info, replay=rp)
+
+
 def replay_cv2(sc):
     n = sc["n"]
     ss = [0.8, 1.3, 1.1, 1.9, 0.6, 1.45][:n]
@@ -342,8 +392,10 @@ def harnesses(tier):
         for ncomp in (0, 1, 2):
             hs.append(Harness(f"price.N{n}.c{ncomp}", h_price, {"n": n, "ncomp": ncomp}, max_paths=4000, batch=10))
     hs.append(Harness("price.spotstats", h_price, {"n": 2, "ncomp": 1, "spot_stats": True}, max_paths=2000))
-    for n in ((2, 3) if q else (2, 3, 4)):
+    for n in ((2,) if q else (2, 3)):
         hs.append(Harness(f"cv.N{n}", h_cv, {"n": n}, max_paths=2000, timeout_ms=90000))
+    for n in ((2, 3) if q else (2, 3, 4, 5)):
+        hs.append(Harness(f"cv1.N{n}", h_cv_comp, {"n": n}, max_paths=4000, timeout_ms=60000))
     for n in ((3,) if q else (3, 4)):
         hs.append(Harness(f"cv2.N{n}", h_cv2, {"n": n}, max_paths=2000, timeout_ms=120000))
     for n in ((1, 2) if q else (1, 2, 3)):
@@ -354,12 +406,12 @@ def harnesses(tier):
 
 EXPECT = ["C07.price_is_discounted_mean_of_notional_scaled_payoff", "C07.mc_error_is_unbiased_stddev_over_sqrt_N", "C07.simulates_exactly_the_configured_number_of_paths",
           "C07.cv.adjusted_price_is_mean_of_Y_minus_bstar_X_minus_price", "C07.cv.equals_raw_when_control_mean_equals_its_price",
-          "C07.cv.adjusted_variance_is_raw_minus_explained", "C07.cv.covariances_are_biased_sample_covariances", "C07.repeated_pricing_uses_only_its_own_paths", "C07.pricing_leaves_the_product_unchanged"]
+          "C07.cv.adjusted_variance_is_raw_minus_explained", "C07.cv.covariances_are_biased_sample_covariances", "C07.cv.adjusted_samples_are_Y_minus_bstar_X_minus_price", "C07.repeated_pricing_uses_only_its_own_paths", "C07.pricing_leaves_the_product_unchanged"]
 
 
 def main(tier):
     bounds = {"paths": "N <= 3 (quick) / 4 (thorough)", "payoff": "forward, call with scalar strike, call with a vector of 2 strikes; notional, discount factor, strikes arbitrary reals",
-              "controls": "one control (forward on the spot, arbitrary notional, strike and price), N <= 3/4; two controls (forward and call with a notional, "
+              "controls": "one control (forward on the spot, arbitrary notional, strike and price): direct identities N = 2 (quick) / 2, 3 (thorough), compositional N <= 3 / 5; two controls (forward and call with a notional, "
                           "plain-float prices, 2x2 inverse), N = 3 (quick) / 3, 4 (thorough)",
               "repeated pricing": "the same engine and Product priced twice, N <= 2/3",
               "outside": "three or more controls and vector-strike payoffs with controls; worker pools (C08)"}
